@@ -137,6 +137,9 @@ def gen_case(rng, i):
     s.update({"B": np.array(T), "classes": cls, "epskind": ek,
               "Eps": rng.uniform(0.01, 1.0, (m, n)) * np.atleast_2d(s["A"]) ** 2 if ek == "explicit" else None,
               "sigma_rel": float(rng.uniform(0.05, 0.3)),
+              # filter uncertainty given as S sampled filter sets (3-D) instead of a standard deviation (2-D)
+              "unc_samples": int(rng.integers(3, 8)) if (ek == "uncertainty" and rng.integers(3) == 0) else 0,
+              "unc_seed": int(rng.integers(0, 2 ** 31 - 1)),
               "l1kind": lk, "L1": None if lk == "none" else (float(np.sum(Xmid[0])) if lk == "scalar" else np.sum(Xmid, axis=1)),
               "l2_eps": float(10 ** rng.uniform(-4, -2)), "l1_eps": float(10 ** rng.uniform(-3, -1.5)),
               "solver": ["default", "clarabel"][rng.integers(2)]})
@@ -161,7 +164,18 @@ def chk_case(inp, c):
     if inp["baseline"] is not None:
         kw0["baseline"] = inp["baseline"]
     Eps_model = inp["Eps"]
-    if ek == "uncertainty":
+    if ek == "uncertainty" and inp.get("unc_samples", 0):
+        # uncertainty as samples of the filters: variance model = variance over the samples of their capture matrices
+        c.cell("uncertainty=samples")
+        ur = np.random.default_rng(int(inp["unc_seed"]))
+        S = int(inp["unc_samples"])
+        fs = filters[None] * (1.0 + inp["sigma_rel"] * ur.normal(0, 1, (S,) + filters.shape)) + 0.01 * ur.random((S,) + filters.shape)
+        kw0["filters_uncertainty"] = fs
+        w_dom = oracles.step_weights(filters.shape[1], 1.0, True)
+        caps = np.array([oracles.capture_oracle(fs[k], sources, w_dom)[0] for k in range(S)])      # (S, n, m)
+        Eps_model = np.var(caps, axis=0).T
+    elif ek == "uncertainty":
+        c.cell("uncertainty=std")
         sig = inp["sigma_rel"] * filters + 0.01 * (filters > 0)
         kw0["filters_uncertainty"] = sig
         w_dom = oracles.step_weights(filters.shape[1], 1.0, True)
@@ -174,7 +188,8 @@ def chk_case(inp, c):
     if ek == "uncertainty":
         E = np.asarray(est.Epsilon)
         c.require(E.shape == (m, n) and np.all(np.abs(E - Eps_model) <= 1e-10 * np.abs(Eps_model) + 1e-300),
-                  "default variance model is the registered filter uncertainty: capture of sigma^2 with sources^2",
+                  "default variance model is the registered filter uncertainty: capture of sigma^2 with sources^2 (std form) / "
+                  "variance over the sampled filter sets of their capture (sample form)",
                   mechanism="epsilon-from-uncertainty", got=np.ravel(E)[:4], want=np.ravel(Eps_model)[:4])
     elif ek == "heteroscedastic":
         c.require(isinstance(est.Epsilon, str) and est.Epsilon == "heteroscedastic",
